@@ -24,6 +24,13 @@ class InvalidNameError(ValueError):
     def __init__(self, name: str, reason: str):
         message: str = f"Cannot split the following name `{name}` into parts: {reason}"
         super().__init__(message)
+        self.name = name
+        self.reason = reason
+
+    def __reduce__(self):
+        # Copying / pickling re-creates an exception from its constructor arguments:
+        # those are (name, reason) here, not the formatted message kept in `args`.
+        return self.__class__, (self.name, self.reason)
 
 
 class _NameTransformerMiddleware(BlockMiddleware, abc.ABC):
